@@ -187,7 +187,7 @@ def reopen_validates_marker(ctx, s):
                     good.append(node)
     oks = [n for n, k, v in s.return_kinds(fn) if k == "ok"]
     ctx.floor("C13.reopen.ok-returns", len(oks), 1)
-    reach = an.cfg.reach_from([an.cfg.entry], avoid=good)
+    reach = s.reach(fn, [an.cfg.entry], avoid=good)
     bad = [n for n in oks if n in reach]
     if bad:
         s.add("S-MUSTPASS", fn, "marker-validated", "EventStore::new", fn.sp, VIOLATION,
@@ -404,7 +404,7 @@ def gating_checks_use_write_txn(ctx, s, root="pocket_db::Store::store_event"):
     gates = s.calls(fn, names=GATES)
     ctx.floor("C14.gating-checks", len(gates), 5)
     for b, info in gates:
-        if not an.cfg.dominates(b, ab) and not an.cfg.reach_from([b]) & {ab}:
+        if not an.cfg.dominates(b, ab) and not s.reach(fn, [b]) & {ab}:
             continue
         ti = None
         for i, t in enumerate(info["aty"]):
